@@ -222,6 +222,10 @@ type evidence struct {
 func (c *Check) Finish(t *Tables, start time.Time, extra map[string]interface{}) int {
 	c.Classify(t)
 	vd := verifDir()
+	if dryRun {
+		vd = filepath.Join(os.TempDir(), fmt.Sprintf("syslcheck-dry-%d", os.Getpid()))
+		defer os.RemoveAll(vd)
+	}
 	evDir := filepath.Join(vd, "evidence")
 	_ = os.MkdirAll(filepath.Join(evDir, "replay"), 0o755)
 	// remove stale replay files of this property
